@@ -399,6 +399,21 @@ def wl_patterns(ctx, rng, i):
     for f in feats:
         ctx.count("feature:" + f)
     w = {"tree": P.jsonable(norm)}
+    if i % 4 == 1:
+        # history: calls that ask for the caller's own node classes (module_suffix / module_name) -- one that succeeds, one whose
+        # pattern the model refuses, one whose text does not parse -- come before the ordinary call; the overrides end with the call
+        from stix2.pattern_visitor import create_pattern_object as _cpo
+        for otext in rng.choice([(text, "[file:name = 'a.exe' AND file:size > 5]", "[file:name = ", "[file:name = 'a.exe' AND process:pid = 4]"),
+                                 ("[file:name = 'a.exe' AND file:size > 5]", text, "[file:name = t'2020-02-30T00:00:00Z']"),
+                                 ("[file:name = 'a.exe' AND process:pid = 4]", "[file:name = 'a.exe' AND file:size > 5]")]):
+            for over_ver in ("2.1", "2.0"):
+                try:
+                    with warnings.catch_warnings():
+                        warnings.simplefilter("ignore")
+                        _cpo(otext, "Stixmon", "stixmon.pattern_overrides", version=over_ver)
+                except Exception:
+                    ctx.count("override_calls_refused")
+        ctx.count("override_histories")
     printed = judge_text(ctx, text, norm, "2.1", "text", w)
     if len(feats) > 3:
         ctx.nontrivial(P.jsonable(norm))
@@ -586,6 +601,8 @@ def wl_model_arguments(ctx, rng, i):
                       {"argument": name, "printed": text, "validator_error": errs[0][:300]})
 
 
+# pure by their documentation: a sample of the calls is repeated in a fresh interpreter, in reverse order (stixmon/echo.py)
+ECHO = ['stix2.pattern_visitor:create_pattern_object']
 WORKLOADS = [
     Workload("model-arguments", wl_model_arguments, quick=46, thorough=46),
     Workload("operand-reuse", wl_operand_reuse, quick=60, thorough=3000),
@@ -620,7 +637,7 @@ MANIFEST = {
              "whitespace and parenthesisation, pushed through create_pattern_object and str(), and the result is validated by the "
              "third-party grammar and read back into the own tree by an independent walker for structural comparison; the same "
              "trees are also assembled from the public model classes.  Exploration over 10^3 (quick) / 10^5 (thorough) patterns with "
-             "per-feature observation floors."),
+             "per-feature observation floors. Echo monitor: a sample of the parse-and-print calls is repeated in a fresh interpreter in reverse order and must answer alike; override-module histories precede a quarter of the cases."),
     "note": "trusts stixmon/oracles/pattern_ast.py (generator/reader self-checked on every case) and the third-party stix2patterns validator",
-    "technique": "runtime monitoring: independent syntax-tree oracle on parse/print events (differential against an own ANTLR-tree reader)",
+    "technique": "runtime monitoring: independent syntax-tree oracle on parse/print events (differential against an own ANTLR-tree reader); echo monitor (pure calls repeated in a fresh interpreter)",
 }
